@@ -39,14 +39,16 @@ def run(ctx):
     qk = ctx.quick
     runs = []
     samples = []
-    for i in range(50 if qk else 500):
-        n = rng.choice([1, 1, 2, 2, 3, 4, 5])
+    for i in range(60 if qk else 500):
+        n = rng.choice([1, 1, 2, 2, 3, 4, 5]) if i >= 12 else 1
         r_ = rng.choice([2.0, 3.0, 4.0, 6.0, 10.0, 20.0, 40.0, rng.uniform(1.5, 30)])
         eps = rng.choice([0.1, 0.05, 0.02, 0.2, rng.uniform(0.02, 0.3)])
         if n >= 3 and r_ > 10:
             r_ = rng.choice([4.0, 6.0, 8.0])          # large r in high dimension only exhausts the budget
         lo, up, w, cs, hs = cone_problem(rng, n, True)
         mode = rng.choice(["flat", "premise-by-M", "steep", "needle", "needle", "needle"]) if n <= 2 else rng.choice(["flat", "flat", "premise-by-M", "steep"])
+        if i < 12:
+            mode = "needle"          # a fixed share of one-dimensional needle / trap objectives in every run
         if mode == "flat":
             Lmax = r_ / KN[n] * rng.uniform(0.3, 0.999)          # K_N L <= r: the bound holds unconditionally
         elif mode == "premise-by-M":
@@ -57,6 +59,7 @@ def run(ctx):
         if mode == "needle":
             # a wide shallow cone plus a narrow deeper one whose depth is several times the certified bound (r/2) eps:
             # flat enough that K_N L <= r, so the bound holds unconditionally - the needle must be found
+            r_ = rng.choice([1.5, 2.0, 2.0, 3.0]) if n == 1 else rng.choice([2.0, 4.0, 8.0])     # all slopes stay below 1: M sits on its floor
             Lmax = r_ / KN[n] * rng.uniform(0.6, 0.999)
             eps = rng.choice([0.01, 0.02]) if n == 1 else rng.choice([0.04, 0.06])
             depth = (r_ / 2) * eps * rng.uniform(2.5, 6.0)
@@ -88,7 +91,7 @@ def run(ctx):
             eps = max(eps, rng.choice([0.2, 0.3, 0.25]))
         run_ = SolverRun(FnProblem(n, lo, up, f, "cones/" + mode), r=r_, eps=eps, limit=limit, m=m, tag="cones/" + mode, full_snap=False,
                          listener="none", lip=Lmax, fmin=min(hs))
-        if rng.random() < 0.35 or (mode == "needle" and i % 2 == 0) or mode == "trap":
+        if (rng.random() < 0.35 and i >= 12) or (mode == "needle" and i % 4 == 0) or mode == "trap":
             # the same guarantee must hold when part of the search is made through DoGlobalIteration batches (one big batch, or several)
             if rng.random() < 0.5:
                 run_.dgi(rng.choice([25, 40, 60]))
